@@ -517,7 +517,7 @@ func c22SweepRun(x *explore.Ctx) {
 func init() {
 	register("C22", &explore.Scenario{
 		ID: "C22", Name: "stored flow key after the first packet, client->server first vs server->client first (TCP/UDP)", Level: "exploration",
-		Rule: "case = family x {TCP,UDP} x 4 ordered unicast address pairs; execution = (client port, server port) from the 40x40 boundary alphabet; inside: first packet in either direction x all 256 TCP flag bytes x inbound/outbound packet type, each parsed by the real parser and added to a fresh empty flow log by the real addToFlowLog (transitions); compared: SYN-first vs SYN+ACK-first (equal, requester->responder), mid-stream first packets of both directions when the documented port rule is decisive (ports differ), both stages with each other for the canonical ephemeral-client/service-port conversation. non-trivial = oracle classes exercised (syn, synack, mid-stream by server side / common-port involvement, canonical), distinct per case",
+		Rule:     "case = family x {TCP,UDP} x 4 ordered unicast address pairs; execution = (client port, server port) from the 40x40 boundary alphabet; inside: first packet in either direction x all 256 TCP flag bytes x inbound/outbound packet type, each parsed by the real parser and added to a fresh empty flow log by the real addToFlowLog (transitions); compared: SYN-first vs SYN+ACK-first (equal, requester->responder), mid-stream first packets of both directions when the documented port rule is decisive (ports differ), both stages with each other for the canonical ephemeral-client/service-port conversation. non-trivial = oracle classes exercised (syn, synack, mid-stream by server side / common-port involvement, canonical), distinct per case",
 		Cases:    func(string) int { return 16 },
 		Bound:    func(string) int { return 0 },
 		Run:      c22Run,
@@ -527,7 +527,7 @@ func init() {
 	})
 	register("C22.icmp", &explore.Scenario{
 		ID: "C22", Name: "stored flow key after the first packet, ICMP / ICMPv6 types", Level: "exploration",
-		Rule: "case = {ICMP over IPv4, ICMPv6 over IPv6} x 4 ordered unicast address pairs; execution = type of the requester's packet (all 256); inside: the responder's packet with every type (256) as the first packet of a fresh flow log; echo (8/0), timestamp (13/14) and ICMPv6 echo (128/129) exchanges must be stored requester->responder whichever packet comes first; every stored key must be the packet's key or its reverse, without ports. non-trivial = request types and request/reply exchanges checked",
+		Rule:     "case = {ICMP over IPv4, ICMPv6 over IPv6} x 4 ordered unicast address pairs; execution = type of the requester's packet (all 256); inside: the responder's packet with every type (256) as the first packet of a fresh flow log; echo (8/0), timestamp (13/14) and ICMPv6 echo (128/129) exchanges must be stored requester->responder whichever packet comes first; every stored key must be the packet's key or its reverse, without ports. non-trivial = request types and request/reply exchanges checked",
 		Cases:    func(string) int { return 8 },
 		Bound:    func(string) int { return 0 },
 		Run:      c22ICMPRun,
@@ -535,11 +535,11 @@ func init() {
 	})
 	register("C22.sweep", &explore.Scenario{
 		ID: "C22", Name: "orientation, all client/server port pairs (TCP mid-stream, UDP)", Level: "exploration",
-		Rule: "case = 64 client-port blocks x family x {TCP ACK-only segment, UDP}, 16 executions per case; inside one execution its client ports x all 65536 server ports (thorough: all 2^32 ordered pairs; quick: pairs with at least one port from the 40-port alphabet), each conversation run twice on an emptied flow log (client->server first, server->client first) through the real parser and addToFlowLog (transitions = first packets added); stored keys must be equal whenever the ports differ. non-trivial = distinct (client port, class: server side by port rule / one common port / both common)",
-		Cases:    func(string) int { return 4 * c19SweepBlocks },
-		Bound:    func(string) int { return 0 },
-		Run:      c22SweepRun,
-		PanicSig: "panic",
+		Rule:        "case = 64 client-port blocks x family x {TCP ACK-only segment, UDP}, 16 executions per case; inside one execution its client ports x all 65536 server ports (thorough: all 2^32 ordered pairs; quick: pairs with at least one port from the 40-port alphabet), each conversation run twice on an emptied flow log (client->server first, server->client first) through the real parser and addToFlowLog (transitions = first packets added); stored keys must be equal whenever the ports differ. non-trivial = distinct (client port, class: server side by port rule / one common port / both common)",
+		Cases:       func(string) int { return 4 * c19SweepBlocks },
+		Bound:       func(string) int { return 0 },
+		Run:         c22SweepRun,
+		PanicSig:    "panic",
 		Assumptions: []string{"in the all-pairs sweep one Capture per execution is reused and its flow log emptied with clear() between first packets (the flow log consists of two maps only); scenario C22 uses a fresh Capture for every first packet"},
 	})
 }
